@@ -32,8 +32,8 @@ TECHNIQUE = "deterministic simulation: definition space vs call-for-call expecta
 
 TYPES = ("COUNTER", "GAUGE", "HISTOGRAM", "SUMMARY")
 VALUE_EXPRS = (None, None, "i", "val", "i * 2.5", "len(name)", "person.age + 1", "flag", "name", "person", "nosuch",
-               "1 / 0", "data['k']", "G_HOST", "'12'", "'1e3'", "None", "host_raise('v')", "host_raise_base('v')")
-LABEL_EXPRS = ("name", "i", "person.name", "flag", "data['k']", "nosuch", "G_HOST", "host_raise_base('l')")
+               "1 / 0", "data['k']", "G_HOST", "'12'", "'1e3'", "None", "host_raise('v')", "host_raise_base('v')", "G_BADNUM")
+LABEL_EXPRS = ("name", "i", "person.name", "flag", "data['k']", "nosuch", "G_HOST", "host_raise_base('l')", "G_BADNUM")
 STATICS = (["s", "blue"], ["i", 7], ["b", True], ["d", 2.5], ["s", ""])
 
 
@@ -242,7 +242,7 @@ def execute(s, ch):
                 if st == "ok":
                     try:
                         value = float(val.obj)
-                    except (TypeError, ValueError):
+                    except BaseException:  # noqa - not a number (or a value whose __float__ raises whatever it likes)
                         value = 1
             labels = {}
             free = set()
@@ -251,10 +251,10 @@ def execute(s, ch):
                     labels[lb["key"]] = lb["static"][1]
                 else:
                     st, val = cap["exprs"][lb["expr"]]
-                    if st == "ok":
-                        labels[lb["key"]] = val.text if val.text is not None else str(val.obj)
+                    if st == "ok" and val.text is not None:
+                        labels[lb["key"]] = val.text
                     else:
-                        free.add(lb["key"])
+                        free.add(lb["key"])      # failing expression, or a value that cannot be rendered: not demanded
             want.append((d["type"].lower(), d["name"], labels, free, d.get("namespace") or "deep", d.get("help"),
                          d.get("unit"), value))
         for pi in range(nproc):
